@@ -127,7 +127,7 @@ META = {
               'float64-specialised vs generic recursion',
  'text': 'Every query of the HMM and mixture types (LogPdf, PosteriorMarginals, Posterior of state-set sequences, Viterbi, Baum-Welch step '
          'likelihood, mixture LogPdf/Likelihood/Posterior, classifiers) is compared with the explicit enumeration of all m^n hidden paths on '
-         '~24k (quick) / ~575k (thorough) generated models; held on the models executed, listed in the evidence by shape, restriction class, '
+         '~110k (quick) / ~1.7M (thorough) generated models; held on the models executed, listed in the evidence by shape, restriction class, '
          'zero class, family and wrapper. Not a proof: only models with at most 4096 paths are enumerable.',
  'note': 'Trusted: the enumerator and compensated log-sum-exp in harness/c15/enum.go; the emission densities of the library (C14).',
 }
